@@ -176,11 +176,12 @@ var serdeGroupList = []serdeGroup{
 	{name: "msg-canetti", files: []string{"pkg/mpc/dkg/canetti/messages.go"}},
 	{name: "msg-hjky", files: []string{"pkg/mpc/zero/hjky/messages.go"}},
 	{name: "msg-redistribute", files: []string{"pkg/mpc/redistribute/messages.go"}},
-	{name: "msg-dkls23-bbot", files: []string{"pkg/mpc/signatures/ecdsa/dkls23/signing_bbot/messages.go"}},
-	{name: "msg-dkls23-softspoken", files: []string{"pkg/mpc/signatures/ecdsa/dkls23/signing_softspoken/messages.go"}},
-	{name: "msg-lindell22", files: []string{"pkg/mpc/signatures/schnorr/lindell22/signing/messages.go"}},
+	// the last "round" of a signing run carries the partial signatures to the aggregator
+	{name: "msg-dkls23-bbot", files: []string{"pkg/mpc/signatures/ecdsa/dkls23/signing_bbot/messages.go"}, recvs: [][2]string{{"pkg/mpc/signatures/ecdsa/dkls23", "PartialSignature"}}},
+	{name: "msg-dkls23-softspoken", files: []string{"pkg/mpc/signatures/ecdsa/dkls23/signing_softspoken/messages.go"}, recvs: [][2]string{{"pkg/mpc/signatures/ecdsa/dkls23", "PartialSignature"}}},
+	{name: "msg-lindell22", files: []string{"pkg/mpc/signatures/schnorr/lindell22/signing/messages.go", "pkg/mpc/signatures/schnorr/lindell22/lindell22.go"}},
 	{name: "msg-lindell17", files: []string{"pkg/mpc/signatures/ecdsa/lindell17/signing/messages.go", "pkg/mpc/signatures/ecdsa/lindell17/keygen/dkg/messages.go"}},
-	{name: "msg-cggmp21", files: []string{"pkg/mpc/signatures/ecdsa/cggmp21/signing/messages.go", "pkg/mpc/signatures/ecdsa/cggmp21/keygen/dkg/messages.go"}},
+	{name: "msg-cggmp21", files: []string{"pkg/mpc/signatures/ecdsa/cggmp21/signing/messages.go", "pkg/mpc/signatures/ecdsa/cggmp21/keygen/dkg/messages.go", "pkg/mpc/signatures/ecdsa/cggmp21/partial.go"}},
 	{name: "msg-aor", files: []string{"pkg/mpc/aor/messages.go"}},
 }
 
